@@ -698,6 +698,18 @@ func (ex *Exec) intConv(x *Term, from, to types.Type) *Term {
 
 func (ex *Exec) box(st *State, x Val, t types.Type) *Term {
 	if x.T == nil {
+		if x.L != nil {
+			// address of a local passed as interface{} (e.g. Decode(&msg)): an opaque
+			// non-nil interface value; the location is remembered so that unknown
+			// callees can be modelled as overwriting it
+			r := ex.ctx.Fresh("boxedptr", SIfc)
+			ex.assume(st, Neq(r, V("iface_nil", SIfc)))
+			if ex.boxedLocs == nil {
+				ex.boxedLocs = map[string]*Loc{}
+			}
+			ex.boxedLocs[r.Op] = x.L
+			return r
+		}
 		ex.unsupported("boxing a non-term value")
 	}
 	if _, ok := t.Underlying().(*types.Interface); ok {
